@@ -13,11 +13,15 @@ import (
 // Canon renders a model value canonically (sorted keys); internal values are marked.
 func Canon(v interface{}) string {
 	var b strings.Builder
-	canon(&b, v)
+	canon(&b, v, 0)
 	return b.String()
 }
 
-func canon(b *strings.Builder, v interface{}) {
+func canon(b *strings.Builder, v interface{}, depth int) {
+	if depth > 200 {
+		b.WriteString("<nested deeper than 200 levels (cyclic?)>")
+		return
+	}
 	switch x := v.(type) {
 	case nil:
 		b.WriteString("null")
@@ -37,7 +41,7 @@ func canon(b *strings.Builder, v interface{}) {
 			if i > 0 {
 				b.WriteByte(',')
 			}
-			canon(b, e)
+			canon(b, e, depth+1)
 		}
 		b.WriteByte(']')
 	case map[string]interface{}:
@@ -53,14 +57,14 @@ func canon(b *strings.Builder, v interface{}) {
 			}
 			b.WriteString(strconv.Quote(k))
 			b.WriteByte(':')
-			canon(b, x[k])
+			canon(b, x[k], depth+1)
 		}
 		b.WriteByte('}')
 	case *Closure:
 		b.WriteString("<expref>")
 	case TextOf:
 		b.WriteString("<text-of ")
-		canon(b, x.V)
+		canon(b, x.V, depth+1)
 		b.WriteByte('>')
 	case Bomb:
 		b.WriteString("<bomb>")
